@@ -79,6 +79,7 @@ const (
 
 func tAdd(w, id int, d int64) tOp { return tOp{W: w, A: "add", Id: id, D: d} }
 func tRem(w, id int) tOp          { return tOp{W: w, A: "rem", Id: id} }
+func tBad(w, id int) tOp          { return tOp{W: w, A: "bad", Id: id} }
 func tDo(a string) tOp            { return tOp{W: -1, A: a} }
 func tPause(w int) tOp            { return tOp{W: w, A: "pause"} }
 
@@ -119,6 +120,13 @@ func timersCorpus(impl string, reps int) []tScenario {
 			tPause(1), tRem(1, x), tAdd(1, x, tLong), tPause(0), tRem(0, y), tAdd(0, y, tLong), tDo("sleep"))
 	}
 	if impl == "sio" {
+		// a rejected request (unparsable delay) under the id of a pending timer changes nothing: the
+		// timer stays pending and cancellable, fires once, and survives a restart
+		add("rejected-request-on-pending", tAdd(-1, x, tLong), tBad(-1, x), tRem(-1, x))
+		add("rejected-request-then-fire", tAdd(-1, x, tShort), tBad(-1, x), tDo("sleep"))
+		add("rejected-request-in-handler", tAdd(-1, x, tShort), tAdd(-1, y, tLong), tBad(0, y), tDo("sleep"), tRem(-1, y))
+		add("rejected-request-then-restart", tAdd(-1, x, tLong), tBad(-1, x), tDo("boot"), tRem(-1, x))
+		add("rejected-request-free-id", tBad(-1, x), tAdd(-1, x, tShort), tDo("sleep"))
 		add("restart-long", tAdd(-1, x, tLong), tDo("boot"), tRem(-1, x))
 		add("restart-before-due", tAdd(-1, x, tShort), tDo("boot"), tDo("sleep"))
 		add("restart-after-firing", tAdd(-1, x, tShort), tDo("sleep"), tDo("boot"), tDo("sleep"), tAdd(-1, x, tShort), tDo("sleep"))
@@ -162,6 +170,9 @@ func timersGenerate(g *G, impl string) tScenario {
 			s.Ops = append(s.Ops, tPause(w))
 		}
 		id := g.intn(2)
+		if impl == "sio" && g.chance(0.12) {
+			s.Ops = append(s.Ops, tBad(w, g.intn(2)))
+		}
 		if g.chance(0.6) {
 			d := int64(tShort)
 			if g.chance(0.3) {
@@ -358,6 +369,8 @@ func timersComponent(impl string) component {
 					o.count(fmt.Sprintf("result:%s:%v", e.K, e.Ok))
 				case "boot":
 					o.count("event:boot")
+				case "bad":
+					o.count(fmt.Sprintf("rejected-request:stays-rejected:%v", !e.Ok))
 				}
 			}
 			nreq := 0
